@@ -1,84 +1,17 @@
 (* Driver for the extracted model and specification oracles.
    Reads a case file (one case per line, TAB separated, byte strings in lower-case hex,
    "-" = empty string) and prints one verdict per line:
-     <id> TAB ok TAB <class>
+     <id> TAB ok TAB <class>            (class starting with "+" = non-trivial case)
      <id> TAB MISMATCH TAB <model result>
-     <id> TAB SPECFAIL TAB <clause>
-   usage: driver cases <file>      |     driver bridges <Cnn>                      *)
-module V = Verif_model
-
-let rec pos_of_int n =
-  if n = 1 then V.XH else if n land 1 = 0 then V.XO (pos_of_int (n lsr 1)) else V.XI (pos_of_int (n lsr 1))
-let n_of_int n = if n = 0 then V.N0 else V.Npos (pos_of_int n)
-let rec int_of_pos = function V.XH -> 1 | V.XO p -> 2 * int_of_pos p | V.XI p -> 2 * int_of_pos p + 1
-let int_of_n = function V.N0 -> 0 | V.Npos p -> int_of_pos p
-let byte_tab = Array.init 256 n_of_int
-let rec nat_of_int n = if n = 0 then V.O else V.S (nat_of_int (n - 1))
-
-let hexval c =
-  match c with
-  | '0' .. '9' -> Char.code c - 48
-  | 'a' .. 'f' -> Char.code c - 87
-  | 'A' .. 'F' -> Char.code c - 55
-  | _ -> failwith "bad hex"
-
-let bytes_of_hex (s : string) =
-  if s = "-" then []
-  else begin
-    let n = String.length s / 2 in
-    let rec go i acc = if i < 0 then acc else go (i - 1) (byte_tab.(hexval s.[2 * i] * 16 + hexval s.[2 * i + 1]) :: acc) in
-    go (n - 1) []
-  end
-
-let hex_of_bytes l =
-  match l with
-  | [] -> "-"
-  | _ ->
-    let b = Buffer.create 64 in
-    List.iter (fun x -> Buffer.add_string b (Printf.sprintf "%02x" (int_of_n x land 255))) l;
-    Buffer.contents b
-
-let string_of_bytes l = String.init (List.length l) (fun i -> Char.chr (int_of_n (List.nth l i) land 255))
-let bytes_of_string s = List.init (String.length s) (fun i -> byte_tab.(Char.code s.[i]))
-
-let split_tab s = String.split_on_char '\t' s
-
-let ok id cls = Printf.printf "%s\tok\t%s\n" id cls
-let mismatch id m = Printf.printf "%s\tMISMATCH\t%s\n" id m
-let specfail id c = Printf.printf "%s\tSPECFAIL\t%s\n" id c
-
-let opt_str = function None -> "panic" | Some r -> "ok:" ^ hex_of_bytes r
-
-(* outcome field of the implementation: "ok" / "panic" / "err:<class>" ; output hex *)
-let regex_table = lazy (List.map (fun (n, r) -> (string_of_bytes n, r)) V.all_regexes)
-
-let bool_str b = if b then "1" else "0"
+     <id> TAB SPECFAIL TAB <clause> [TAB finding=<Dnn>]
+   usage: driver cases <file>      |     driver bridges <Cnn>
+   Streams are registered by the drv_*.ml files. *)
+open Drv_common
 
 let handle (f : string array) =
-  let stream = f.(0) and id = f.(1) in
-  match stream with
-  | "rx" ->
-    (* rx id name subject implbool *)
-    let r = List.assoc (string_of_bytes (bytes_of_hex f.(2))) (Lazy.force regex_table) in
-    let m = V.go_match r (V.decode_runes (bytes_of_hex f.(3))) in
-    if bool_str m = f.(4) then ok id (if m then "+match" else "nomatch") else mismatch id (bool_str m)
-  | "ident_const" ->
-    (* ident_const id v outcome out *)
-    let v = bytes_of_hex f.(2) in
-    let m = V.identifier_from_constant v in
-    let impl = if f.(3) = "ok" then Some (bytes_of_hex f.(4)) else None in
-    (match impl with
-     | Some r when not (V.ident_spec r && r = v) -> specfail id "result_not_identifier"
-     | _ -> if m = impl then ok id (if m = None then "panic" else "+accept") else mismatch id (opt_str m))
-  | "ident_prefix" ->
-    let p = bytes_of_hex f.(2) and v = bytes_of_hex f.(3) in
-    let m = V.identifier_from_constant_prefix p v in
-    let impl = if f.(4) = "ok" then Some (bytes_of_hex f.(5)) else None in
-    (match impl with
-     | Some r when not (V.ident_spec r && r = p @ [byte_tab.(45)] @ v && List.for_all V.is_ident_char v) ->
-       specfail id "result_not_prefix_hyphen_value_identifier"
-     | _ -> if m = impl then ok id (if m = None then "panic" else "+accept") else mismatch id (opt_str m))
-  | _ -> Printf.printf "%s\tSKIP\tunknown-stream\n" id
+  match Hashtbl.find_opt handlers f.(0) with
+  | Some h -> h f
+  | None -> Printf.printf "%s\tSKIP\tunknown-stream\n" f.(1)
 
 let run_cases file =
   let ic = open_in file in
@@ -93,13 +26,8 @@ let run_cases file =
    with End_of_file -> ());
   close_in ic
 
-(* runes of a counterexample word, UTF-8 encoded, in hex *)
-let word_hex w = hex_of_bytes (V.encode_runes w)
-
 let run_bridges prop =
-  let l = match prop with
-    | "C18" -> V.c18_bridges
-    | _ -> [] in
+  let l = match Hashtbl.find_opt bridges prop with Some l -> l | None -> [] in
   List.iter (fun (name, (a, b)) ->
       match V.incl_check (nat_of_int 5000) a b with
       | V.Included -> Printf.printf "%s\tincluded\n" (string_of_bytes name)
